@@ -72,7 +72,11 @@ impl<'t, 'a> FlowGen<'t, 'a> {
     }
 
     fn simple_stmt(&mut self, loop_level: usize) -> Stmt {
-        match self.t.weighted(&[50, 12, 10, 10, 6, 3]) {
+        match self.t.weighted(&[50, 12, 10, 10, 6, 3, 4]) {
+            6 => {
+                // a pronoun: the variable named last, or a runtime error right after a block (taken or not) has ended
+                say(bin(BinOp::Plus, strlit("it="), Expr::Primary(Primary::Ident(Ident::Pronoun))))
+            }
             0 => self.mark(),
             1 => {
                 let c = self.counters[self.t.pick(loop_level.max(1)).min(self.counters.len() - 1)].clone();
